@@ -69,8 +69,10 @@ def strategy_(draw, thorough):
 def many_categories_(draw):
     """A categorical with a label count around the width limits of the codes (int8/int16): the handle reports the column
     as categorical for every form of the `categories` option, and the read must then deliver it."""
-    return {"src": "many_categories", "labels": draw(st.sampled_from([128, 129, 32767, 32768, 32768, 32769, 40000])),
+    return {"src": "many_categories", "labels": draw(st.sampled_from([128, 129, 200, 32767, 32768, 32768, 32769, 40000])),
             "form": draw(st.sampled_from(["list", "list", "dict", "none"])), "rows": draw(st.sampled_from([1, 7])),
+            # all labels in use, or only the first 60 of them (declared but unused labels still belong to the column)
+            "used": draw(st.sampled_from(["all", "all", "some"])),
             "read": {"pandas_nulls": True}}
 
 
@@ -84,6 +86,8 @@ def _many_categories(case):
     labels = ["src:many_categories", "form:" + form, "labels:%s" % ("<2^7" if n < 128 else "<2^15" if n < 32768 else ">=2^15")]
     cats = ["c%05d" % i for i in range(n)]
     codes = [(i * 7919) % n for i in range(n)]
+    if case.get("used") == "some":
+        codes = [c % 60 for c in codes[:300]]
     df = pd.DataFrame({"x": pd.Categorical.from_codes(codes, categories=cats), "v": np.arange(len(codes), dtype="int64")})
     with common.Scratch() as d:
         path = os.path.join(d, "t.parq")
@@ -102,6 +106,10 @@ def _many_categories(case):
         except Exception as e:
             return viol("read_raised_after_prediction|many_categories|" + exc_sig(e),
                         "dtypes predicted %r for a column of %d labels (categories=%s form), then: %s" % (str(claimed.get("x")), n, form, exc_detail(e)),
+                        labels=labels)
+        reported = pf.categories.get("x") if isinstance(pf.categories, dict) else None
+        if reported is not None and int(reported) < len(out["x"].cat.categories):
+            return viol("categories_count|many_categories", "categories reports %r labels, the column read has %d" % (reported, len(out["x"].cat.categories)),
                         labels=labels)
         if norm_dtype(claimed["x"]) != norm_dtype(out["x"].dtype):
             return viol("dtype|many_categories", "dtypes says %s, the read gives %s" % (claimed["x"], out["x"].dtype), labels=labels)
@@ -243,6 +251,11 @@ def run_case(case):
                 return viol("dtype|%s|%s->%s|%s" % (src, _fam(want), _fam(got), optsig), "column %r: dtypes says %s, the read gives %s" % (c, want, got),
                             labels=labels)
         # ---- categorical columns
+        if isinstance(claimed_categories, dict):
+            for c, cnt in claimed_categories.items():
+                if c in got_cols and str(out[c].dtype) == "category" and isinstance(cnt, (int, np.integer)) and int(cnt) < len(out[c].cat.categories):
+                    return viol("categories_count|%s" % src, "categories[%r]=%r, the column read has %d labels" % (c, cnt, len(out[c].cat.categories)),
+                                labels=labels)
         if "categories" not in kw:
             got_cat = {c for c in got_cols if str(out[c].dtype) == "category" and c not in claimed_cats}
             want_cat = {c for c in claimed_categories if c in got_cols}
